@@ -19,3 +19,30 @@ func ZZ_C19_histogram_New() {
 		zzAssert(h != nil, "constructor returns an instance")
 	}
 }
+
+// C19/C10: Histogram measurement encoding for every 64-bit measurement (length 1..6): a measurement
+// outside {0..length-1} is refused with an error - never a panic - and an accepted one encodes as
+// the one-hot vector with the one at its own index.
+//
+//zz: prop=C19 also=C10 tier=quick backend=bv timeout=120 maxpaths=4000
+func ZZ_C19_histogram_Encode_validates_measurement() {
+	length := uint(zzPick("length", 1, 2, 3, 6))
+	m := zzU64("measurement")
+	h := newFlpHistogram(length, 2)
+	out, err := h.Encode(m)
+	zzAssert(zzIff(err != nil, m >= uint64(length)), "measurement refused iff it is not a bucket index")
+	if err != nil {
+		return
+	}
+	zzReach("accepted")
+	zzAssert(uint(len(out)) == length, "encoding has one element per bucket")
+	ok := []bool{}
+	for i := range out {
+		if uint64(i) == m {
+			ok = append(ok, out[i].IsOne())
+		} else {
+			ok = append(ok, out[i].IsZero())
+		}
+	}
+	zzAssert(zzAnd(ok...), "one-hot at the measurement's index")
+}
